@@ -132,7 +132,19 @@ def list_fields(node):
 _ALNUM_OK = set(range(32, 127))
 
 
+_ROWS_CACHE = {}
+
+
 def _tok_rows(src: str):
+    r = _ROWS_CACHE.get(src, 0)
+    if r == 0:
+        if len(_ROWS_CACHE) > 64:
+            _ROWS_CACHE.clear()
+        r = _ROWS_CACHE[src] = _tok_rows_uncached(src)
+    return r
+
+
+def _tok_rows_uncached(src: str):
     try:
         toks = list(tokenize.generate_tokens(io.StringIO(src).readline))
     except (tokenize.TokenError, IndentationError, SyntaxError):
@@ -338,11 +350,11 @@ def window_facts(src: str, elems, emptied_block: bool, parent=None):
              significant token after it (at most one separator skipped) -- the window W of DESIGN 4-C04."""
     rows = _tok_rows(src)
     if rows is None or not elems:
-        return None, []
+        return None, [], []
     lines = src.split('\n')
     p1, p2 = region_of(elems, lines)
     if p1 is None:
-        return None, []
+        return None, [], []
     n = len(rows)
     i1 = next((i for i, r in enumerate(rows) if r[2] >= p1), n)
     j = i1 - 1
@@ -357,7 +369,9 @@ def window_facts(src: str, elems, emptied_block: bool, parent=None):
     while j >= 0 and (rows[j][1] in _INTRO or rows[j][1] == '('):
         npar += rows[j][1] == '('
         j = back(j - 1)
+    hdr_row = None
     if emptied_block and j >= 1 and rows[j][1] == ':' and rows[back(j - 1)][1] in ('else', 'finally'):
+        hdr_row = rows[j][2][0]  # line of the header's colon
         j = back(back(j - 1) - 1)
     lo = rows[j][3] if j >= 0 else (0, 0)
     i2 = next((i for i, r in enumerate(rows) if r[2] >= p2), n)
@@ -385,7 +399,13 @@ def window_facts(src: str, elems, emptied_block: bool, parent=None):
             break
     hi = rows[k][2] if k < n else (len(lines) + 1, 0)
     window = [r[1] for r in rows if r[0] == 'COMMENT' and lo <= r[2] < hi]
-    return trail, window
+    # comments above an emptied block's header and on the header's own line (when no statement shares that line)
+    header = []
+    if hdr_row is not None:
+        inline = p1[0] == hdr_row
+        header = [r[1] for r in rows if r[0] == 'COMMENT' and lo <= r[2] and
+                  (r[2][0] < hdr_row or (r[2][0] == hdr_row and not inline))]
+    return trail, window, header
 
 
 # ----------------------------------------------------------------------------------------------------------------------
@@ -471,14 +491,15 @@ def extract_events(rec: Recorder, src: str, tree, init: dict, base_ids, case: di
         dexc = e
     cp = rec.piece(cpiece) if cexc is None else NOPIECE
     tc = 0
-    trail, window = window_facts(src, case.get('elems') or [], case.get('emptied', False), case.get('parent'))
+    trail, window, header = window_facts(src, case.get('elems') or [], case.get('emptied', False), case.get('parent'))
     if trail is not None:
         tc = rec.ktab[rec.tok_id('COMMENT', trail) - 1]['m']
     wc = sorted(rec.ktab[rec.tok_id('COMMENT', w) - 1]['m'] for w in window)
+    hc = sorted(rec.ktab[rec.tok_id('COMMENT', w) - 1]['m'] for w in header)
     ev2 = dict(common, call='cut', op=cop, outcome='ok' if cexc is None else 'raise', exc=exc_json(cexc),
                delOutcome='ok' if dexc is None else 'raise', delExc=exc_json(dexc),
                post=rec.state(ra, init['rootObj']), delPost=rec.state(rc, init['rootObj']),
-               res=cp, copy=ev['res'], trailCmt=tc, winCmts=wc, rootOk=root_ok(ra),
+               res=cp, copy=ev['res'], trailCmt=tc, winCmts=wc, hdrCmts=hc, rootOk=root_ok(ra),
                remBag=rec.bag_json(ra.src, base_ids) if cexc is None else {'ok': False, 'v': [], 'x': []},
                pieceBag=rec.bag_json(cpiece.src, base_ids) if (cexc is None and isinstance(cpiece, FST))
                else {'ok': False, 'v': [], 'x': []})
@@ -817,7 +838,8 @@ def comment_event(rec: Recorder, src, init, path, kind, field, full, text, inden
 
 def run_shard(args):
     """args = (shard id, [(trace id, prog, variant, seed, budget dict)], tier opts) -> (batch, meta)."""
-    shard_id, specs, conf = args
+    shard_id, specs, conf0 = args
+    conf = dict(conf0)
     from corpus.programs import PROGRAMS as _CORPUS
     from . import layouts
     from .c07_programs import EXTRA
@@ -842,6 +864,10 @@ def run_shard(args):
         if tree is None:
             continue
         init, base_ids = init_state(rec, src)
+        conf = dict(conf0)
+        if prog >= len(_CORPUS) and conf.get('cases', 0) < 1000:
+            # the purpose-built inputs: every case on the layout as written, three times the budget on the others
+            conf['cases'] = 10 ** 6 if variant == 0 else 3 * conf['cases']
         steps = []
         infos = []
 
@@ -868,12 +894,14 @@ def run_shard(args):
                     _prioritise([c for c in cases if not c['slice'] and c['path'][-1][0] not in blk], max(2, conf['cases'] // 2))
             elif variant >= 100:  # byte / character column slips live in the slice paths: mostly non-empty slices here
                 sl = [c for c in cases if c['slice'] and c['stop'] > c['start']]
-                cases = _prioritise(sl, 2 * conf['cases']) + _prioritise([c for c in cases if not c['slice']],
+                cases = _prioritise(sl, 4 * conf['cases']) + _prioritise([c for c in cases if not c['slice']],
                                                                          max(2, conf['cases'] // 3))
             else:
-                cases = _prioritise(cases, conf['cases'])
+                cases = _prioritise(cases, conf['cases'], src)
             for k, case in enumerate(cases):
-                o = dict(rng.choice(DOCSTR_POOL if case.get('mlstr') and rng.random() < 0.6 else OPTION_POOL))
+                pool = DOCSTR_POOL if case.get('mlstr') and rng.random() < 0.6 else \
+                    TRIVIA_POOL if case.get('wc') and rng.random() < 0.5 else OPTION_POOL
+                o = dict(rng.choice(pool))
                 case['op'] = rng.choice(SLICE_OPS if case['slice'] else NODE_OPS)
                 info = {'what': 'c07', 'case': {a: case[a] for a in ('path', 'field', 'start', 'stop', 'slice', 'op', 'kind', 'emptied')},
                         'opts': o}
@@ -894,6 +922,10 @@ def run_shard(args):
                 oe = [c for c in st if (c['field'] if c['slice'] else c['path'][-1][0]) == 'orelse']
                 ids = {id(c) for c in oe}
                 sel = oe[:conf['cases']] + _prioritise([c for c in st if id(c) not in ids], conf['cases'])
+            elif variant >= 100:  # multi-byte text: byte / character column slips live in the slice paths
+                blk = ('body', 'orelse', 'finalbody', 'handlers', 'cases', '_body')
+                sl = [c for c in cases if c['slice'] and c['stop'] > c['start'] and c['field'] not in blk]
+                sel = _prioritise(sl, 5 * conf['cases']) + _prioritise([c for c in cases if not c['slice']], conf['cases'])
             else:
                 sel = _prioritise(cases, conf['cases'])
             for k, case in enumerate(sel):
@@ -941,6 +973,8 @@ def run_shard(args):
     return batch, meta
 
 
+TRIVIA_POOL = [{}, {'trivia': False}, {'trivia': (False, 'line')}, {'trivia': ()}, {'trivia': ('none', 'all')},
+               {'trivia': 'all'}, {'trivia': ('block', False)}, {'trivia': ('all', 'all')}]
 DOCSTR_POOL = [{'docstr': 'strict'}, {'docstr': False}, {'docstr': True}, {'docstr': 'strict', 'trivia': 'all'}, {}]
 
 
@@ -949,7 +983,7 @@ def _has_mlstr(elems):
                for e in elems for a in ast.walk(e))
 
 
-def _prioritise(cases, n):
+def _prioritise(cases, n, src=None):
     """First n cases of the (already shuffled) list, but with up to n // 4 cases whose elements hold a multi-line string
     moved to the front (the docstring clauses are only exercised there)."""
     for c in cases:
@@ -957,6 +991,17 @@ def _prioritise(cases, n):
     if n >= len(cases):
         return cases
     special = [c for c in cases if c['mlstr']][:max(1, n // 4)]
+    if src is not None:  # cuts with comments standing around the removed region (the comment-conservation clauses)
+        k = 0
+        for c in cases:
+            if k >= max(2, n // 2):
+                break
+            if c['mlstr'] or not c.get('elems') or (c['slice'] and c['stop'] == c['start']):
+                continue
+            if window_facts(src, c['elems'], c.get('emptied', False), c.get('parent'))[1]:
+                c['wc'] = True
+                special.append(c)
+                k += 1
     ids = {id(c) for c in special}
     return special + [c for c in cases if id(c) not in ids][:n - len(special)]
 
